@@ -32,7 +32,7 @@ APIS = ["metricframe", "fairness", "moments", "eg", "grid", "threshold", "permut
 
 
 def cases(tier, seed):
-    k = 40 if tier == "quick" else 1100
+    k = 30 if tier == "quick" else 1000
     out = []
     for api in APIS:
         mult = {"metricframe": 3, "fairness": 2, "moments": 3, "threshold": 3, "eg": 1, "grid": 1, "permute": 2, "relabel": 2}[api]
